@@ -2,8 +2,8 @@
    front/Tok.v + front/Parse.v are executable ports of tokenize.go, token_tree.go, parse.go, parse_expr.go and eval_expr.go
    (the tokenizer over a model of bufio.Reader; the parser over the precomputed list of Next() results); the correspondence
    check (lib/front.py, check_c10) compares their result with the implementation's on every input and evaluates the
-   property directly.  Termination of the MODEL is by construction (structural recursion on fuel); that the fuel the
-   driver passes suffices is observed on every run (no FUEL outcome), not yet proved.  Proved: (1) C10_no_panic - for EVERY
+   property directly.  Termination of the MODEL is by construction (structural recursion on fuel); that the fuel and the
+   number of precomputed Next() results suffice for EVERY input is C10_terminates / C10_tokenizer_fuel below.  Proved: (1) C10_no_panic - for EVERY
    input and whether or not the reader fails, neither a Next() call nor ReadFile panics (every UnreadByte follows a
    successful ReadByte; a negative shift count is an error); (2) C10_partial - the tokenizer's behaviour on the token classes
    the top-level loop dispatches on (for every amount of leading horizontal whitespace). *)
@@ -76,3 +76,78 @@ Example C10_reader_failure_witness :
   read_file [115; 116; 114; 117; 99; 116; 32; 65; 32; 123; 125; 10]%N true = PErr /\ read_file [] true = PErr.
 Proof. split; [eexists; eexists; vm_compute; reflexivity|split; vm_compute; reflexivity]. Qed.
 Print Assumptions C10_reader_failure.
+
+(* "ReadFile always terminates": on the model, for EVERY input and whether or not the reader fails, ReadFile returns a File or
+   an error - it neither panics, nor runs a loop out of its fuel, nor asks for more Next() results than were precomputed.
+   (1) front/ParseFuel.v - for EVERY list of Next() results (whatever tokens, and `false` answers - end of input, lexical
+   error, failing reader - anywhere and in any number) no loop of the parser model runs out of fuel when the top-level loop is
+   given 2 * (number of tokens) + 2 units: every way around every loop (top level, struct / message / union / enum bodies,
+   nested field types, array suffixes, flag expressions, end-of-line comments) lowers the potential
+   2 * (tokens not yet delivered) + (1 if a token is kept for re-delivery); a `false` leaves it unchanged and every loop leaves
+   on it; p_unnext raises it by one only after a delivery lowered it.  So the parser makes at most 2 * tokens + 2 loop
+   iterations in all, however the stream ends.  (2) front/TokProgress.v - every Next() made with bytes left leaves strictly
+   fewer and one made at the end of the input answers `false`: at most one token per input byte, and only `false` answers
+   after as many calls as there were bytes.  (3) front/ParseEnd.v - once only `false` answers are left, a delivery can only be
+   the kept token, so what any function of the parser can still consume before it returns or fails is bounded by a constant;
+   `margin` (120) `false` answers at the end of the list are more than that.  PFuel = a loop ran out of fuel; PEnd = the
+   parser asked for more results than the list holds. *)
+Require Import Bebop.front.ParseFuel Bebop.front.TokFuel Bebop.front.TokProgress Bebop.front.ParseEnd.
+Definition C10_terminates_statement : Prop :=
+  (forall input fails, (exists f s, read_file input fails = POk f s) \/ read_file input fails = PErr) /\
+  (forall rs0 cur0 e0 g f cm opc ro bf, (2 * count_nt rs0 + 2 <= g)%nat ->
+     top_loop g f cm opc ro bf {| rs := rs0; cur := cur0; keep := false; perrs := e0 |} <> PFuel) /\
+  (forall n s, (count_tok (next_results n s) <= len s)%nat /\ forall k, (len s <= k)%nat -> Forall is_nf (skipn k (next_results n s))).
+Theorem C10_terminates : C10_terminates_statement.
+Proof.
+  split; [|split; [exact loops_never_out_of_fuel|intros n s; split; [exact (tokens_le_bytes n s)|exact (results_after_input n s)]]].
+  intros input fails. pose proof (read_file_never_panics input fails) as H1. pose proof (read_file_loops_terminate input fails) as H2.
+  pose proof (read_file_never_short input fails) as H3.
+  destruct (read_file input fails) as [f s| | | |]; [left; eauto|right; reflexivity|contradiction|contradiction|contradiction].
+Qed.
+(* not vacuous: with too little fuel the loop does run out (so PFuel is reachable in the model), and a result list that ends
+   too early is reported as PEnd, not as PFuel *)
+Example C10_terminates_witness :
+  let f0 := {| structs := []; messages := []; enums := []; unions := []; consts := []; imports := []; gopackage := [] |} in
+  let nl := NT {| kind := kNewline; concrete := [10%N] |} [] in
+  top_loop 2 f0 [] 0%N false false {| rs := [nl; nl; nl; NF []]; cur := tok0; keep := false; perrs := [] |} = PFuel /\
+  (exists f s, top_loop 8 f0 [] 0%N false false {| rs := [nl; nl; nl; NF []]; cur := tok0; keep := false; perrs := [] |} = POk f s) /\
+  top_loop 8 f0 [] 0%N false false {| rs := [nl; nl; nl]; cur := tok0; keep := false; perrs := [] |} = PEnd.
+Proof. split; [vm_compute; reflexivity|split; [eexists; eexists; vm_compute; reflexivity|vm_compute; reflexivity]]. Qed.
+Print Assumptions C10_terminates.
+
+(* ... and the tokenizer's share (front/TokFuel.v): Next() on the model, with its fuel made a parameter, gives the same answer
+   for EVERY amount of fuel above remaining bytes + 1 (the model passes remaining bytes + 2), and so do the builders it starts
+   above remaining bytes: the fuel-exhausted branches of Tok.v, which return normal-looking values, are never what an answer
+   comes from - each way around each loop of the tokenizer follows a successful ReadByte / ReadRune, which shortens the input. *)
+Require Import Bebop.front.TokFuel.
+Definition C10_tokenizer_fuel_statement : Prop :=
+  (forall s g, S (len s) < g -> next_with g s = next s) /\
+  (forall g s conc k a b c d, len s < g -> number_loop g s conc k a b c d = number_loop (S (len s)) s conc k a b c d) /\
+  (forall g s conc e, len s < g -> string_lit g s conc e = string_lit (S (len s)) s conc e) /\
+  (forall g s conc l, len s < g -> block_comment g s conc l = block_comment (S (len s)) s conc l) /\
+  (forall g s, len s < g -> skip_ws g s = skip_ws (S (len s)) s).
+Theorem C10_tokenizer_fuel : C10_tokenizer_fuel_statement.
+Proof. exact (conj next_fuel_immaterial builders_fuel_immaterial). Qed.
+(* not vacuous: with less fuel the answer does change *)
+Example C10_tokenizer_fuel_witness :
+  let s := {| buf := {| rest := [115; 116; 114; 117; 99; 116; 32]%N; lastByte := None; lastRune := None; failing := false |}; errs := [] |} in
+  next_with 3 s <> next s /\ next_with 9 s = next s /\ next_with 100 s = next s.
+Proof. cbv zeta. split; [vm_compute; discriminate|split; vm_compute; reflexivity]. Qed.
+Print Assumptions C10_tokenizer_fuel.
+
+(* The third clause, first half - "if ReadFile reports success then the whole input was consumed" - on the model and for EVERY
+   input: when a File is returned, every Next() result the parser has not used is a `false` answer; no token of the input was
+   left unread (front/ParseDone.v), because the top-level loop returns a File only on a `false` with no error recorded, which
+   the tokenizer gives only when no byte is left (front/TokClean.v).  The second half (appending one more definition) is
+   decided by the run: it needs the tokenizer's behaviour across the junction of two texts. *)
+Require Import Bebop.front.TokClean Bebop.front.ParseDone.
+Definition C10_consumes_input_statement : Prop :=
+  (forall input fails f s', read_file input fails = POk f s' -> Forall is_nf (rs s')) /\
+  (forall s, nk s -> match next s with R ot s1 => nk s1 /\ (ot = None -> errs s1 = [] -> len s1 = 0) | RPanic => True end).
+Theorem C10_consumes_input : C10_consumes_input_statement.
+Proof. exact (conj read_file_consumes_input next_clean). Qed.
+(* not vacuous: a File is returned for this text, and `false` answers are what is left *)
+Example C10_consumes_input_witness :
+  exists f s', read_file [115; 116; 114; 117; 99; 116; 32; 65; 32; 123; 125; 10]%N false = POk f s' /\ length (rs s') = 126 /\ structs f <> [].
+Proof. eexists; eexists. vm_compute. repeat split. discriminate. Qed.
+Print Assumptions C10_consumes_input.
